@@ -63,8 +63,21 @@ func (g *c08Rig) note(ev string, cover bool) {
 	g.evSeen[ev] = true
 	g.r.Count("ev:"+ev, 1)
 	if parts := strings.Split(ev, "+"); len(parts) > 1 {
+		g.r.Count("ev:"+parts[0], 1)
 		for _, p := range parts[1:] {
 			g.r.Count("ev:"+p, 1)
+			if cover && strings.Contains(p, "-rate-") {
+				// a judged rate evaluation next to its threshold (see c08Model.boundary), per
+				// window type and per state the rate was evaluated in
+				w, st := "count", "CLOSED"
+				if g.pol.TimeBased {
+					w = "time"
+				}
+				if strings.HasPrefix(parts[0], "half-") {
+					st = "HALF_OPEN"
+				}
+				g.r.Count("boundary:"+w+":"+st+":"+p, 1)
+			}
 		}
 	}
 	if cover {
@@ -91,6 +104,12 @@ func (g *c08Rig) settle(alts []c08Alt, what string) {
 		g.r.Violation(fmt.Sprintf("seq:state:after=%s:%s:model=%s:real=%s", what, c08Keys(evs), c08Keys(sts), stateStrings[real]),
 			g.detail(map[string]interface{}{"real_state": stateStrings[real]}))
 		g.stopped = true
+		if len(evs) == 1 && what != "clock-advance" {
+			// the step was judged (and refuted): the reference event is still an observation made
+			for e := range evs {
+				g.note(e, true)
+			}
+		}
 		return
 	}
 	next := make([]*c08Model, 0, len(keep))
